@@ -2,6 +2,7 @@ SPECIFICATION Spec
 CONSTANTS
   Tier = "quick"
 CONSTRAINT Export
+INVARIANT FineCoding
 INVARIANT WellFormedCases
 INVARIANT ParserAgrees
 INVARIANT ImplIffValid
